@@ -1435,10 +1435,14 @@ def _c15_cases(rng, tier, exhaustive=False):
     while True:
         H, W = rng.randint(1, 8), rng.randint(1, 8)
         k = rng.choice([2, 3])
-        cells = [rng.randrange(k) for _ in range(H * W)]
+        # small alphabets, or large ids / nearly equal values (distinct values must stay distinct regions)
+        alphabet = rng.choice([[0, 1, 2], [0, 1, 2], [250000, 250001, 250002], [1000000, 1000001, -1000000], [7, 1000000, 1000001]])
+        cells = [alphabet[rng.randrange(k)] for _ in range(H * W)]
         mask = [int(rng.random() < 0.8) for _ in range(H * W)] if rng.random() < 0.5 else None
         tr = [2.0, 0.0, 10.0, 0.0, -3.0, 5.0] if rng.random() < 0.3 else None
-        yield {"H": H, "W": W, "cells": cells, "mask": mask, "conn": rng.choice([4, 8]), "dtype": rng.choice(["int64", "float64", "int32"]),
+        # float rasters are compared with isclose(rtol=1e-5) by design: large / nearly equal values only for integer dtypes
+        dts = ["int64", "int32"] if max(abs(v) for v in alphabet) > 100 else ["int64", "float64", "int32"]
+        yield {"H": H, "W": W, "cells": cells, "mask": mask, "conn": rng.choice([4, 8]), "dtype": rng.choice(dts),
                "transform": tr}
 
 
